@@ -103,8 +103,17 @@ pub fn region_protocol(image: &mut JxlImage, rsrc: &mut Src, classes: &mut Vec<S
                         let a = data[y * rw + x];
                         let b = f[(t + y) * w + l + x];
                         let same = if ri == n_regions { a.to_bits() == b.to_bits() } else { (a - b).abs() <= TOL * a.abs().max(b.abs()).max(1.0) || a.to_bits() == b.to_bits() };
+                        if !same && std::env::var_os("VERIF_C06_SURVEY").is_some() {
+                            // debugging aid: list every differing sample of this request instead of stopping
+                            eprintln!("C06-DIFF req {ri} region ({l},{t},{rw},{rh}) kf {k} ch {c} at ({x},{y}) abs ({},{}): {a} vs {b} diff {:e}", l + x, t + y, (a - b).abs());
+                            continue;
+                        }
                         if !same {
-                            let sig = if ri == n_regions { "final-full-render-differs" } else { "region-sample" };
+                            // differences up to 10x the tolerance are float-rounding noise of differently aligned SIMD
+                            // bodies / scalar tails, amplified by the opsin matrix and the transfer curve (known finding);
+                            // anything larger is a different kind of failure
+                            let small = (a - b).abs() <= 10.0 * TOL * a.abs().max(b.abs()).max(1.0);
+                            let sig = if ri == n_regions { "final-full-render-differs" } else if small { "region-sample:within-10x-tolerance" } else { "region-sample" };
                             return Some((sig.into(), format!("request #{ri} region ({l},{t},{rw},{rh}) keyframe {k} channel {c} at ({x},{y}): {a} vs full render {b}")));
                         }
                     }
